@@ -38,6 +38,11 @@ EXTRA = {
     "multi12": ("fb", 2, [("multi", [("train", 1), ("test", 1)] * 3 +
                            [("train", 2)] * 6),
                           ("multi", [("train", 1)] * 11)]),
+    # further sessions into sub-directories the parent lists already know
+    "subtwice": ("fb", 2, [("x", [("train", 3)]),
+                           ("x", [("train", 2), ("test", 1)]),
+                           ("x/y", [("train", 1)]), ("x", [("train", 1)]),
+                           ("root", [("train", 1)]), ("x/y", [("test", 2)])]),
     "many64": ("fb", 1, [("root", [("train", 64)])]),
     "many120": ("fb", 1, [("root", [("train", 120)])]),
     "many120npz": ("npz", 1, [("root", [("train", 120)])]),
